@@ -18,11 +18,11 @@ var modelNames = map[string]bool{
 	"(time.Time).IsZero": false,
 	"(time.Time).Add":    true, "(time.Time).Sub": true,
 	"(time.Duration).Seconds": true,
-	"time.Now": true, "time.Until": true, "time.Since": true, "(time.Time).UnixNano": true,
+	"time.Now":                true, "time.Until": true, "time.Since": true, "(time.Time).UnixNano": true,
 	"math/rand/v2.Float64": true, "math/rand/v2.IntN": true, "math/rand.Float64": true, "math/rand.Intn": true,
-	"cmp.Compare":             true,
-	"sync.NewCond":            true,
-	"fmt.Errorf":              true, "errors.New": true,
+	"cmp.Compare":  true,
+	"sync.NewCond": true,
+	"fmt.Errorf":   true, "errors.New": true,
 	"sort.SliceStable": false, "sort.Slice": false, "sort.Strings": false,
 }
 
